@@ -412,8 +412,8 @@ def run_reset_applied(ctx: Ctx, n: int):
 def run(ctx: Ctx) -> None:
     quick = ctx.quick()
     rng = ctx.rng
-    run_reset_applied(ctx, 400 if quick else 8000)
-    ndocs = 120 if quick else 1500
+    run_reset_applied(ctx, 400 if quick else 3000)
+    ndocs = 120 if quick else 500
     docs = list(gens.doc_stream(rng, ndocs, 6))
     docs[:3] = PROBES
     cfgs = [("commonmark", {}), ("js-default", {"typographer": True}), ("zero", {}), ("js-default", {"html": True, "breaks": True})]
